@@ -283,12 +283,16 @@ def inject_faults(kind):
     return restore
 
 
-def first_selection_probe(col):
+def first_selection_probe(col, which=0):
     """The very first selection of a process (the selector instance that also performs the numba warm-up) must give
     the coding that later selectors compute for the same settings: it is the one that ends up in the selection cache.
     Settings: choose 2 of 5 (matched by a pattern encoder; the non-pattern winner has another signature)."""
     cs = {'src': [{'deg': {'list': [2]}, 'rep': False}], 'tgt': [{'deg': {'list': [0, 1]}, 'rep': False} for _ in range(5)],
           'excluded': [], 'patterns': None, 'max_conn_parallel': None}
+    if which % 3 == 1:    # exactly one connection set, of a shape pattern encoders accept: no variables expected
+        cs = dict(cs, src=[{'deg': {'min': 1}, 'rep': False}], tgt=[{'deg': {'min': 1}, 'rep': False} for _ in range(2)])
+    elif which % 3 == 2:  # no connection set at all
+        cs = dict(cs, src=[{'deg': {'min': 3}, 'rep': False}], tgt=[{'deg': {'min': 1}, 'rep': False} for _ in range(2)])
     main_cache = os.environ.get('XDG_CACHE_HOME')
     os.environ['XDG_CACHE_HOME'] = os.path.join(main_cache, 'scratch_first')
     try:
@@ -296,6 +300,7 @@ def first_selection_probe(col):
         m0, s0 = select(cs, col, dict(probe='first'), timeout=10, cache=True, label='first_of_process')
         if m0 is None:
             return
+        check_working(m0, cs, col, dict(probe='first'), 'first_of_process')
         first = (coding(m0, cs, -1), s0._last_selection_stage)
         fr = []
         for _rep in range(2):
@@ -319,7 +324,7 @@ def phase_a(task, col):
     out = {}
     keys = {}
     if task['lo'] == 0 or task.get('shard', 0) % 4 == 0:
-        first_selection_probe(col)
+        first_selection_probe(col, task.get('shard', 0) // 4 if task['lo'] != 0 else 0)
     for i in range(task['lo'], task['hi']):
         cs = gen_case(task['seed'], i)
         col.evaluations += 1
